@@ -1012,7 +1012,13 @@ class Volume3D(Property2D):
                 inp["modes"] = 8
             yield inp
         # special amplitude vectors: modes that cancel exactly in their sum, a single non-zero mode, all equal
-        for amps in ([0, 0, 0, 0.2, 0, -0.2, 0, 0], [0.125, -0.25, 0, 0.25, 0, -0.125, 0, 0], [0, 0, 0.25], [0.1, 0.1, 0.1]):
+        # ... and high sectoral modes (l = 4, m = +-4 and l = 3, m = 3): rho^3 then contains azimuthal orders up to 12, which a coarse fixed
+        # quadrature does not integrate
+        y44 = [0.0] * 24
+        y44[23], y44[15] = 0.15, -0.1
+        y33 = [0.0] * 15
+        y33[14], y33[7] = 0.15, 0.1
+        for amps in ([0, 0, 0, 0.2, 0, -0.2, 0, 0], [0.125, -0.25, 0, 0.25, 0, -0.125, 0, 0], [0, 0, 0.25], [0.1, 0.1, 0.1], y44, y33):
             out = dict(modes=len(amps), radius=1.5, ang0=0.3, ang1=1.1, pos0=0.0, pos1=0.0, pos2=0.0)
             for j, a_ in enumerate(amps):
                 out[f"amp{j}"] = float(a_)
